@@ -32,6 +32,7 @@ var (
 	replay    = flag.String("replay", "", "replay file: run only the case/scenario stored there")
 	jobs      = flag.Int("j", 8, "hist: parallel child processes")
 	heavy     = flag.Int("heavy", 2, "hist: scenarios whose preludes compile thousands of generated types")
+	coptN     = flag.Int("copts", 1, "hist: scenarios that pretouch a type with semantic compile options and probe the types containing it")
 	poolN     = flag.Int("pool", 2, "hist: scenarios whose preludes are thousands of failing nested calls (pool pollution)")
 	heavyTiny = flag.Bool("heavytiny", false, "hist: heavy preludes use one-field struct types (cheaper)")
 	envs      = flag.String("envs", "", "hist: comma separated back-end env sets to also run, e.g. SONIC_USE_OPTDEC=1,SONIC_ENCODER_USE_VM=1")
